@@ -31,9 +31,9 @@ theorem relay_identity (env : Env) (st : Stack) (b : Base) (fuel : Nat)
     engineCopy env fuel st b = ⟨st.content ++ b.flat, b.term == .eof⟩ :=
   engineCopy_identity env fuel st b hp hfuel
 
-example : (Stack.bufio [1, 2, 3]).measure ⟨[[4], [], [5, 6]], .eof⟩ < 20 ∧
+example : (Stack.bufio [1, 2, 3]).measure ⟨[[4], [], [5, 6]], .eof, false⟩ < 20 ∧
     (Stack.bufio [1, 2, 3]).poisoned = false ∧
-    engineCopy ⟨true, true, true⟩ 20 (.bufio [1, 2, 3]) ⟨[[4], [], [5, 6]], .eof⟩ = ⟨[1, 2, 3, 4, 5, 6], true⟩ := by
+    engineCopy ⟨true, true, true⟩ 20 (.bufio [1, 2, 3]) ⟨[[4], [], [5, 6]], .eof, false⟩ = ⟨[1, 2, 3, 4, 5, 6], true⟩ := by
   decide
 
 /-- The buffered loop alone (`relayCopyLoop` / `relayCopyDirect` / the splice loop), for every read
@@ -43,7 +43,7 @@ theorem copy_loop_identity (sz : Nat) (hsz : 0 < sz) (st : Stack) (b : Base) (fu
     copyLoop sz fuel st b = ⟨st.content ++ b.flat, b.term == .eof⟩ :=
   copyLoop_identity sz hsz fuel st b hp hfuel
 
-example : copyLoop 2 20 (.prefixed [9, 8, 7]) ⟨[[1, 2, 3]], .err⟩ = ⟨[9, 8, 7, 1, 2, 3], false⟩ := by decide
+example : copyLoop 2 20 (.prefixed [9, 8, 7]) ⟨[[1, 2, 3]], .err, false⟩ = ⟨[9, 8, 7, 1, 2, 3], false⟩ := by decide
 
 /-- `TakeRelaySegments`/`TakeRelayPrefix` hand over everything that was buffered, once: afterwards
 the wrapper holds nothing, so no later read can return those bytes again. -/
@@ -60,7 +60,7 @@ theorem read_conserves (n : Nat) (hn : 0 < n) (st : Stack) (b : Base) (hp : st.p
       (st.read n b).1.data ++ ((st.read n b).2.1.content ++ (st.read n b).2.2.flat) :=
   ((Stack.read_spec n hn st b hp).none h).1
 
-example : ((Stack.prefixed [1, 2, 3]).read 5 ⟨[[4, 5, 6]], .eof⟩).1.data = [1, 2, 3, 4, 5] := by decide
+example : ((Stack.prefixed [1, 2, 3]).read 5 ⟨[[4, 5, 6]], .eof, false⟩).1.data = [1, 2, 3, 4, 5] := by decide
 
 /-- **Any use of a wrapper.** For every interleaving of `Read(p)` with arbitrary buffer sizes (0, 1,
 one less / equal / one more than the prefix, …) and `TakeRelaySegments`/`TakeRelayPrefix` at any
@@ -73,18 +73,25 @@ theorem interleaving_conserves (as : List Act) (st : Stack) (b : Base) (hp : st.
     (runActs as st b).1.flatten = st.content ++ b.flat :=
   runActs_conserves as st b hp
 
-example : runActs [.read 0, .read 1, .take, .read 0, .read 5, .read 5] (.prefixed [1, 2, 3]) ⟨[[4, 5]], .eof⟩ =
-    ([[], [1], [2, 3], [], [4, 5], []], .prefixed [], ⟨[], .eof⟩) := by decide
+example : runActs [.read 0, .read 1, .take, .read 0, .read 5, .read 5] (.prefixed [1, 2, 3]) ⟨[[4, 5]], .eof, false⟩ =
+    ([[], [1], [2, 3], [], [4, 5], []], .prefixed [], ⟨[], .eof, false⟩) := by decide
 
 /-- What a latched stream error does (the only case excluded above): the copy delivers what the
 sniffer had buffered and fails — it never invents, reorders or repeats bytes either. -/
 theorem poisoned_copy_delivers_buffer_only (env : Env) (buf : Bytes) (b : Base) (fuel : Nat)
     (hne : buf ≠ []) :
-    engineCopy ⟨false, env.tcpDst, env.pending⟩ (fuel + 1) (.sniffer buf true) b = ⟨buf, false⟩ := by
+    engineCopy env (fuel + 1) (.sniffer buf true) b = ⟨buf, false⟩ := by
   have : buf.isEmpty = false := by cases buf <;> simp_all
-  simp [engineCopy, Stack.take, this, continuation, copyLoop, Stack.read, Out.prepend]
+  obtain ⟨s, d, p⟩ := env
+  cases s <;> cases p <;>
+    simp [engineCopy, Stack.take, this, continuation, copyLoop, Stack.read, Out.prepend]
 
-example : engineCopy ⟨false, false, false⟩ 5 (.sniffer [7] true) ⟨[[1]], .eof⟩ = ⟨[7], false⟩ := by decide
+example : engineCopy ⟨true, true, true⟩ 5 (.sniffer [7] true) ⟨[[1]], .eof, false⟩ = ⟨[7], false⟩ := by decide
+
+/-- a conn that returns its last segment TOGETHER with the end of the stream (`(n > 0, io.EOF)`, as
+proxy-protocol conns may) is covered by every theorem of this section (`Base.lastWithTerm`) -/
+example : copyLoop 4 9 .plain ⟨[[1, 2], [3]], .eof, true⟩ = ⟨[1, 2, 3], true⟩ ∧
+    (Base.read 4 ⟨[[3]], .err, true⟩).1 = ⟨[3], some .err⟩ := by decide
 
 /-! ## 2. Detection hands every byte over to the relay, within its window, with no deadline left -/
 
@@ -442,15 +449,18 @@ theorem no_drop_before_end (cfg : Cfg) (c u : Script)
       · exact fun ht => cutBefore_keeps _ _ _ hd ht
     · exact fun ht => cutBefore_keeps _ _ _ hd ht
 
+example : ∀ d ∈ natDelivs (front exCfg exClient).T (front exCfg exClient).st.content (front exCfg exClient).rest,
+    d.t < (conn exCfg exClient exUp).ret → d ∈ (conn exCfg exClient exUp).up := by decide
+
 /-- The timed relay and the untimed engine agree on the bytes: an undisturbed direction delivers
 exactly what `engineCopy` writes for the same wrapper over the same segments (non-TCP pair). -/
 theorem timed_agrees_with_engine (T : Nat) (st : Stack) (s : Script) (pending dstTcp : Bool) (fuel : Nat)
     (hp : st.poisoned = false)
-    (hfuel : st.measure ⟨s.evs.map (·.data), if s.fin == .eof then .eof else .err⟩ < fuel) :
+    (hfuel : st.measure ⟨s.evs.map (·.data), if s.fin == .eof then .eof else .err, false⟩ < fuel) :
     bytesOf (dirNatural T st.content st.poisoned s).out =
-      (engineCopy ⟨false, dstTcp, pending⟩ fuel st ⟨s.evs.map (·.data), if s.fin == .eof then .eof else .err⟩).bytes ∧
+      (engineCopy ⟨false, dstTcp, pending⟩ fuel st ⟨s.evs.map (·.data), if s.fin == .eof then .eof else .err, false⟩).bytes ∧
     (dirNatural T st.content st.poisoned s).ok =
-      (engineCopy ⟨false, dstTcp, pending⟩ fuel st ⟨s.evs.map (·.data), if s.fin == .eof then .eof else .err⟩).ok := by
+      (engineCopy ⟨false, dstTcp, pending⟩ fuel st ⟨s.evs.map (·.data), if s.fin == .eof then .eof else .err, false⟩).ok := by
   rw [engineCopy_identity _ fuel st _ hp hfuel, hp, dirNatural_clean]
   refine ⟨by rw [bytesOf_natDelivs]; rfl, ?_⟩
   cases s.fin <;> rfl
